@@ -94,12 +94,21 @@ def run(ck):
         bw = 'adaptive' if (i % 3 == 1 and kern != 'sum_power_laplace') else 'constant'
         X = xr.make_X('random', n, d, rng); y = xr.make_y(task, X, rng)
         Xv = xr.make_X('random', 50, d, rng); yv = xr.make_y(task, Xv, rng)
-        desc = dict(i=i, kernel=kern, task=task, cmode=cmode, n_trees=n_trees, n=n, L=L, f=f, bw=bw, tuned=tuned, fixedT=fixedT, diag=bool(i % 2), tree_iters=int(i % 4 == 2), seed=ck.seed)
+        # degenerate gate scale: an indicator feature that is 0 for 80% of the rows, split along it, soft routing -> the inter-quartile
+        # range of the projections is 0 and the stored adaptive scale sits at its 1e-6 clamp
+        flat_gate = (i % 7 == 3) and not depth0
+        gate_kw = {}
+        if flat_gate:
+            X[:, 0] = (rng.random(n) < 0.2).astype(np.float32); Xv[:, 0] = (rng.random(50) < 0.2).astype(np.float32)
+            fv = np.zeros(d, dtype=np.float32); fv[0] = 1.0
+            gate_kw = dict(split_method='fixed_vector', fixed_vector=torch.tensor(fv))
+            tuned = False; fixedT = 0.3; L = max(L, n // 3)
+        desc = dict(i=i, kernel=kern, task=task, cmode=cmode, n_trees=n_trees, n=n, L=L, f=f, bw=bw, tuned=tuned, fixedT=fixedT, diag=bool(i % 2), tree_iters=int(i % 4 == 2 and not flat_gate), flat_gate=flat_gate, seed=ck.seed)
         ctor = dict(rfm_params=xr.default_rfm_params(kernel=kern, iters=1, diag=bool(i % 2), bandwidth=3.0, exponent=[1.0, 1.2][i % 2],
                                                      bandwidth_mode=bw, reg=1e-2, **extra),
                     max_leaf_size=L, n_trees=n_trees, overlap_fraction=f, verbose=False, classification_mode=cmode,
                     use_temperature_tuning=tuned, split_temperature=fixedT, temp_tuning_space=[0.0, 0.1, 0.7, 2.5], refill_size=20,
-                    **(dict(split_method='random_global_agop', n_tree_iters=1) if i % 4 == 2 else {}))
+                    **(gate_kw if flat_gate else dict(split_method='random_global_agop', n_tree_iters=1) if i % 4 == 2 else {}))
         xr.seed_all(3100 + i + ck.seed)
         src = xr.xRFM(**copy.deepcopy(ctor))
         try:
